@@ -2,7 +2,7 @@
 C05 — Compilation and error display terminate cleanly on every input.
 
 The parser theorems are about `Model/Parser.lean` with `Variant.fixed` (the tree with patches fix-c05-catch-block-loop,
-fix-c03-if-at-eof, fix-c05-error-builder-nil-token applied, and the left-over-token error positioned at the first left-over token), for EVERY lexer `ops` that meets `LexOK` — stated once for all
+fix-c03-if-at-eof, fix-c05-error-builder-nil-token applied, the left-over-token error positioned at the first left-over token, and the still-in-the-输入-section error positioned at the token that ended the block), for EVERY lexer `ops` that meets `LexOK` — stated once for all
 token streams; `tokenOps_ok` shows the assumption is satisfiable, Model/Lexer's `nextToken` is the intended instance (its own
 bounds are the lexer worker's theorems).  The display theorems are about `Model/ErrorPrinter.lean` (patch
 fix-c05-error-printer-total).  Proofs: Proofs/ParserHoare, ParserGood*, ParserTheorems, ErrorPrinter.
@@ -120,6 +120,75 @@ theorem overindented_line_before_fix :
         [{ type := cTypeIdentifier, literal := [0x7532], startIdx := 0, endIdx := 1 },
          { type := cTypeIdentifier, literal := [0x4E59], startIdx := 6, endIdx := 7 }] with
      | .synErr e => e.code == 20 && e.cursor == 0 | _ => false) = true := by decide +kernel
+
+/-- **input_state_error_at_block_ending_token** (C18's "the error points at the offending line"): when the loop of `ParseExecBlock`
+ends (`blockCond` fails: the peek token is the end of the text, or stands on a line that is not indented like the block — an
+over-indented or a dedented line) while the block is still in its 输入 section (only 输入 lines so far, none at all included),
+the production answers syntax error 20 positioned at the PEEK token (`s.p2`: the token that ended the block, or the end of the
+text) — for every lexer, every fuel, every input and every accumulator.  (Tree before 07aabbd: `getInvalidSyntaxCurr`, i.e. the
+last token that was accepted — the last token of the 输入 line, see `input_state_error_before_fix`.) -/
+theorem input_state_error_at_block_ending_token (n indent : Nat) (ins : List Ident) (ss : List Stmt)
+    (cs : List (Option Ident × Option (List Stmt))) (s : PState σ) (hend : blockCond ops indent s = false) :
+    parse Variant.fixed ops (n + 1) (.execLoop indent .input ins ss cs) s = .err ⟨20, s.p2.startIdx⟩ := by
+  show pExecLoop Variant.fixed ops n _ indent .input ins ss cs s = _
+  unfold pExecLoop
+  simp only [Bind.bind, PM.bind, getS, hend, Bool.false_eq_true, if_false, if_true]
+  show (errPeek Variant.fixed 20 : PM σ ExecBlock) s = _
+  unfold errPeek
+  cases s.p1 <;> rfl
+
+/-- … the same place in the code before 07aabbd (`Variant.legacy`, once a token has been accepted — always the case inside a
+method; at the top level of a file with no token accepted the legacy error builder dereferences nil): the error is positioned at
+the LAST ACCEPTED token `t` -/
+theorem input_state_error_before_fix (n indent : Nat) (ins : List Ident) (ss : List Stmt)
+    (cs : List (Option Ident × Option (List Stmt))) (s : PState σ) (t : Token) (hend : blockCond ops indent s = false)
+    (hp1 : s.p1 = some t) :
+    parse Variant.legacy ops (n + 1) (.execLoop indent .input ins ss cs) s = .err ⟨20, t.startIdx⟩ := by
+  show pExecLoop Variant.legacy ops n _ indent .input ins ss cs s = _
+  unfold pExecLoop
+  simp only [Bind.bind, PM.bind, getS, hend, Bool.false_eq_true, if_false, if_true]
+  show (errCurr Variant.legacy : PM σ ExecBlock) s = _
+  unfold errCurr
+  rw [hp1]
+
+/-- conversely, a block that is past its 输入 section ends normally there (any variant): the switch is read in the 输入 state only -/
+theorem exec_block_ends_outside_input_state (v : Variant) (n indent : Nat) (st : ExSt) (ins : List Ident) (ss : List Stmt)
+    (cs : List (Option Ident × Option (List Stmt))) (s : PState σ) (hend : blockCond ops indent s = false) (hst : st ≠ .input) :
+    parse v ops (n + 1) (.execLoop indent st ins ss cs) s = .ok (.mk ins (some ss) cs) s := by
+  show pExecLoop v ops n _ indent st ins ss cs s = _
+  unfold pExecLoop
+  simp only [Bind.bind, PM.bind, getS, hend, Bool.false_eq_true, if_false, hst]
+  rfl
+
+/-- three lines, each one step deeper: `如何算？` (characters 0–3), `    输入N` (5–11), `        输出 N` (13–24) -/
+def inputY : ZnVerif.Spec.StmtSyntax.Layout :=
+  { lines := #[{ indents := 0, startIdx := 0 }, { indents := 1, startIdx := 5 }, { indents := 2, startIdx := 13 }], eofIdx := 25,
+    ne := by decide }
+
+/-- the tokens of `如何算？⏎    输入N⏎        输出 N` (real lexer: `lex` of the driver) -/
+def inputToks : List Token :=
+  [{ type := cTypeFuncW, startIdx := 0, endIdx := 2 }, { type := cTypeIdentifier, literal := [0x7B97], startIdx := 2, endIdx := 3 },
+   { type := cTypeFuncDeclare, startIdx := 3, endIdx := 4 }, { type := cTypeInputW, startIdx := 9, endIdx := 11 },
+   { type := cTypeIdentifier, literal := [0x4E], startIdx := 11, endIdx := 12 }, { type := cTypeReturnW, startIdx := 21, endIdx := 23 },
+   { type := cTypeIdentifier, literal := [0x4E], startIdx := 24, endIdx := 25 }]
+
+/-- the witness `如何算？⏎    输入N⏎        输出 N`: an over-indented line right after the 输入 line.  Repaired tree: error 20 at `输出`
+(cursor 21, on the over-indented line) … -/
+theorem line_after_input_line_after_fix :
+    (match ZnVerif.Spec.StmtSyntax.parseLaidOut Variant.fixed inputY 80 inputToks with
+     | .synErr e => e.code == 20 && e.cursor == 21 | _ => false) = true := by decide +kernel
+
+/-- … tree before 07aabbd: error 20 at `N` (cursor 11, the last token of the 输入 line) -/
+theorem line_after_input_line_before_fix :
+    (match ZnVerif.Spec.StmtSyntax.parseLaidOut Variant.legacy inputY 80 inputToks with
+     | .synErr e => e.code == 20 && e.cursor == 11 | _ => false) = true := by decide +kernel
+
+/-- the 输入 line last in the text (`如何算？⏎    输入N`): the repaired tree points at the end of the text (cursor 12) -/
+theorem input_line_last_after_fix :
+    (match ZnVerif.Spec.StmtSyntax.parseLaidOut Variant.fixed
+        { lines := #[{ indents := 0, startIdx := 0 }, { indents := 1, startIdx := 5 }], eofIdx := 12, ne := by decide } 80
+        (inputToks.take 5) with
+     | .synErr e => e.code == 20 && e.cursor == 12 | _ => false) = true := by decide +kernel
 
 -- non-vacuity: the assumptions on the lexer are satisfiable (token-level lexer), and its initial states satisfy `I`
 example : LexOK tokenOps 100 List.length (fun l => ∀ t ∈ l, t.startIdx ≤ 100) := tokenOps_ok 100
